@@ -134,6 +134,7 @@ static void on_stuck(void) {
     int t, nt = zv_nthreads(), selfblocked = 0;
     for (t = C.K; t < nt; t++) { void* o; if (zv_thread_status(t, &o) == ZS_COND && !g_freed && o == (void*)&g_ctx->queuePushCond) selfblocked = 1; }
     if (!selfblocked) oracle("deadlock: no thread can run, and no worker is blocked inside a blocking POOL_add made by its own job");
+    else if (!g_freed && g_ctx->shutdown) oracle("deadlock during POOL_free: shutdown is set but a thread is still blocked");
     finish_line("STUCK"); fflush(stdout); send_trace(1); _exit(0);
 }
 
